@@ -26,7 +26,7 @@ from ..core import (
     walk_no_nested,
 )
 from ..decide import A, Path, PathEnumerator, f_and, f_eval, f_not, f_or, path_formula, paths_of, substitute, to_formula, valuations
-from ..fold import FoldKeyError, Folder, Unfoldable
+from ..fold import FoldKeyError, Folder, Sym, Unfoldable
 from ..regions import evaluate_region, exc_class_of, flatten_init, mentions
 from .. import rx
 
@@ -62,6 +62,25 @@ def _is_ide(ctx: Ctx, fns: Sequence[FuncInfo], cls: Optional[ClassInfo], exc_tex
 
 
 # ---------------------------------------------------------------------------------------------------- R1
+def _construct_outcome(ctx: Ctx, c: ClassInfo, *args: Any, **kwargs: Any) -> Any:
+    """the abstract instance built by c's constructor (super() chain flattened, helpers expanded) or the exception class raised"""
+    from ..absint import Raised, construct, ctor_hook, module_call_hook
+    from .c02 import _layout_hook
+
+    hook = ctor_hook(ctx, module_call_hook(ctx, c.module, [], [], results={"check_name": None}, record=["check_name"], base_hook=_layout_hook(ctx, c.module, c)))
+    try:
+        return construct(ctx, c, *args, hook=hook, **kwargs)
+    except Raised as r:
+        return r.cls_name
+    except Unfoldable as ex:
+        raise AnalysisError("cannot evaluate the constructor of %s over abstract arguments: %s" % (c.name, ex))
+
+
+def _ide_name(ctx: Ctx, name: str) -> bool:
+    k = next((k for k in ctx.repo.all_classes().values() if k.name == name), None)
+    return k is not None and ctx.repo.is_subclass(k, IDE)
+
+
 def rule_r1_widths(ctx: Ctx) -> None:
     repo = ctx.repo
     ctx.rule(
@@ -79,112 +98,69 @@ def rule_r1_widths(ctx: Ctx) -> None:
     }
     for cname, want in table.items():
         c = ctx.cls(SER + "_primitive." + cname)
-        stmts, chain = flatten_init(repo, c, node_of=ctx.inl)
-        paths = PathEnumerator().run(stmts)
-        names = ["bit_length", "cast_mode", "self._bit_length", "self._cast_mode", "self.bit_length", "self.cast_mode"]
-
-        def marker_eval(m: tuple, f: Folder) -> Optional[bool]:
-            if m[0] == "except":
-                # handler taken iff a literal lookup in the try body fails
-                hit = False
-                for n in ast.walk(ast.Module(body=m[3], type_ignores=[])):
-                    if isinstance(n, ast.Subscript) and isinstance(n.value, ast.Dict):
-                        try:
-                            f.fold(n)
-                        except FoldKeyError:
-                            hit = True
-                        except Unfoldable as ex:
-                            raise AnalysisError("%s: cannot fold literal table: %s" % (cname, ex))
-                if m[1] in ("KeyError", "LookupError", "Exception"):
-                    return hit
-                return False
-            return None
-
-        def make_folder(v: Dict[str, Any]) -> Folder:
-            env = {"bit_length": v["n"], "cast_mode": v["cm"]}
-            f = Folder(env, repo, c.module, c, enum_hook(ctx, c.module, c))
-            return f
-
-        def relevant(cond: Any) -> bool:
-            return mentions(cond, names) or mentions(cond, ["__p1_bit_length", "__p2_bit_length"])
-
-        # the flattened body binds self._bit_length etc. by substitution, so every guard mentions bit_length/cast_mode
-        dom = [{"n": n, "cm": cm} for n in widths for cm in (SAT, TRU)]
-        res = evaluate_region(paths, dom, relevant, make_folder, marker_eval, key=lambda v: (v["n"], v["cm"]))
+        init = repo.lookup_method(c, "__init__")
         bad = []
         nonide = []
-        for (n, cm), acc in res.accepted.items():
-            ctx.count()
-            if acc != bool(want(n, cm)):
-                bad.append({"bit_length": n, "cast_mode": cm, "found": "accept" if acc else "reject", "expected": "accept" if want(n, cm) else "reject"})
-            if not acc:
-                for ex in res.raised[(n, cm)]:
-                    if not _is_ide(ctx, chain, c, ex):
-                        nonide.append(ex)
-        init = chain[0]
-        ctx.check(not bad, c.short + ".__init__", "width/cast-mode region", "accepted (bit_length, cast_mode) region must equal the Specification", init.where(), bad[:6])
-        ctx.check(not nonide, c.short + ".__init__", "rejection class", "rejections must be InvalidDefinitionError subclasses", init.where(), sorted(set(nonide))[:4])
+        for n in widths:
+            for cm in (SAT, TRU):
+                out = _construct_outcome(ctx, c, n, cm)
+                acc = not isinstance(out, str)
+                ctx.count()
+                if acc != bool(want(n, cm)):
+                    bad.append({"bit_length": n, "cast_mode": cm, "found": "accept" if acc else "reject (%s)" % out, "expected": "accept" if want(n, cm) else "reject"})
+                if not acc and not _ide_name(ctx, out):
+                    nonide.append(out)
+        where = init.where() if init else c.module.relpath
+        ctx.check(not bad, c.short + ".__init__", "width/cast-mode region", "accepted (bit_length, cast_mode) region must equal the Specification", where, bad[:6])
+        ctx.check(not nonide, c.short + ".__init__", "rejection class", "rejections must be InvalidDefinitionError subclasses", where, sorted(set(nonide))[:4])
     ctx.sample({"rule": "C05.R1", "class": "SignedIntegerType", "domain": "bit_length -1..67 x {saturated,truncated}", "accepted": "2..64 saturated"})
 
     # fixed-parameter primitives: the constructor passes the Specification's constants to the base constructor
     fixed = {"BooleanType": (1, SAT), "ByteType": (8, TRU), "UTF8Type": (8, TRU)}
     for cname, (wn, wcm) in fixed.items():
         c = ctx.cls(SER + "_primitive." + cname)
-        stmts, chain = flatten_init(repo, c, node_of=ctx.inl)
-        paths = [p for p in PathEnumerator().run(stmts) if p.kind == "fall"]
-        found = set()
-        for p in paths:
-            f = Folder({}, repo, c.module, c, enum_hook(ctx, c.module, c))
+        o = _construct_outcome(ctx, c)
+        ctx.count()
+        found = None
+        if not isinstance(o, str):
             try:
-                bl = f.fold(p.env["self._bit_length"])  # type: ignore
-                cm = f.fold(p.env["self._cast_mode"])  # type: ignore
-            except (KeyError, Unfoldable) as ex:
-                raise AnalysisError("%s: cannot fold fixed parameters: %s" % (cname, ex))
-            found.add((bl, cm))
-            ctx.count()
-        ctx.check(found == {(wn, wcm)}, c.short + ".__init__", "fixed width/cast mode", "%s must be %d bits, %s" % (cname, wn, wcm), chain[0].where(), sorted(found))
+                f = Folder({"o": o}, repo, c.module, c, enum_hook(ctx, c.module, c))
+                found = (f.fold(ast.parse("o.bit_length", mode="eval").body), f.fold(ast.parse("o.cast_mode", mode="eval").body))
+            except Unfoldable as ex:
+                raise AnalysisError("%s: cannot read the fixed parameters: %s" % (cname, ex))
+        init = repo.lookup_method(c, "__init__")
+        ctx.check(found == (wn, wcm), c.short + ".__init__", "fixed width/cast mode", "%s must be %d bits, %s" % (cname, wn, wcm), init.where() if init else c.module.relpath, found if found is not None else o)
 
     # void
     c = ctx.cls(SER + "_void.VoidType")
-    stmts, chain = flatten_init(repo, c, node_of=ctx.inl)
-    paths = PathEnumerator().run(stmts)
-    res = evaluate_region(
-        paths,
-        [{"n": n} for n in widths],
-        lambda cond: mentions(cond, ["bit_length", "self._bit_length"]),
-        lambda v: Folder({"bit_length": v["n"]}, repo, c.module, c),
-        None,
-        key=lambda v: v["n"],
-    )
-    bad = [{"bit_length": n, "found": acc} for n, acc in res.accepted.items() if acc != (spec.VOID_MIN_BITS <= n <= spec.VOID_MAX_BITS)]
+    init = repo.lookup_method(c, "__init__")
+    outs = {n: _construct_outcome(ctx, c, n) for n in widths}
+    bad = [{"bit_length": n, "found": "accept" if not isinstance(o, str) else "reject (%s)" % o} for n, o in outs.items() if (not isinstance(o, str)) != (spec.VOID_MIN_BITS <= n <= spec.VOID_MAX_BITS)]
     ctx.count(len(widths))
-    ctx.check(not bad, c.short + ".__init__", "width region", "void width region must be [1, 64]", chain[0].where(), bad[:6])
-    nonide = sorted({ex for n, acc in res.accepted.items() if not acc for ex in res.raised[n] if not _is_ide(ctx, chain, c, ex)})
-    ctx.check(not nonide, c.short + ".__init__", "rejection class", "rejections must be InvalidDefinitionError subclasses", chain[0].where(), nonide)
+    where = init.where() if init else c.module.relpath
+    ctx.check(not bad, c.short + ".__init__", "width region", "void width region must be [1, 64]", where, bad[:6])
+    nonide = sorted({o for o in outs.values() if isinstance(o, str) and not _ide_name(ctx, o)})
+    ctx.check(not nonide, c.short + ".__init__", "rejection class", "rejections must be InvalidDefinitionError subclasses", where, nonide)
 
 
 # ---------------------------------------------------------------------------------------------------- R2
 def rule_r2_arrays(ctx: Ctx) -> None:
     repo = ctx.repo
     ctx.rule("C05.R2", "array capacity region is [1, inf) for both array kinds; `[<n]` means capacity n-1, `[<=n]` and `[n]` mean n", min_instances=5)
+    from ..layout import TBls
+
     caps = list(range(-2, 5)) + [255, 256, 2**32, 2**63]
     for cname in ("FixedLengthArrayType", "VariableLengthArrayType"):
         c = ctx.cls(SER + "_array." + cname)
-        stmts, chain = flatten_init(repo, c, node_of=ctx.inl)
-        paths = PathEnumerator().run(stmts)
-        res = evaluate_region(
-            paths,
-            [{"n": n} for n in caps],
-            lambda cond: mentions(cond, ["capacity", "self._capacity"]) and not mentions(cond, ["self._bls", "length_field_length"]),
-            lambda v: Folder({"capacity": v["n"]}, repo, c.module, c),
-            None,
-            key=lambda v: v["n"],
-        )
-        bad = [{"capacity": n, "found": acc} for n, acc in res.accepted.items() if acc != (n >= spec.ARRAY_MIN_CAPACITY)]
+        init = repo.lookup_method(c, "__init__")
+        et = Sym(bit_length_set=TBls.var("E", 1), alignment_requirement=1, _isa_=frozenset({"SerializableType", "PrimitiveType", "UnsignedIntegerType", "Any"}), _kind_="UnsignedIntegerType")
+        outs = {n: _construct_outcome(ctx, c, et, n) for n in caps}
+        bad = [{"capacity": n, "found": "accept" if not isinstance(o, str) else "reject (%s)" % o} for n, o in outs.items() if (not isinstance(o, str)) != (n >= spec.ARRAY_MIN_CAPACITY)]
         ctx.count(len(caps))
-        ctx.check(not bad, c.short + ".__init__", "capacity region", "array capacity must be accepted iff >= 1", chain[0].where(), bad[:6])
-        nonide = sorted({ex for n, acc in res.accepted.items() if not acc for ex in res.raised[n] if not _is_ide(ctx, chain, c, ex)})
-        ctx.check(not nonide, c.short + ".__init__", "rejection class", "rejections must be InvalidDefinitionError subclasses", chain[0].where(), nonide)
+        where = init.where() if init else c.module.relpath
+        ctx.check(not bad, c.short + ".__init__", "capacity region", "array capacity must be accepted iff >= 1", where, bad[:6])
+        nonide = sorted({o for o in outs.values() if isinstance(o, str) and not _ide_name(ctx, o)})
+        ctx.check(not nonide, c.short + ".__init__", "rejection class", "rejections must be InvalidDefinitionError subclasses", where, nonide)
 
     # parser: capacity expressions of the three array forms
     pt = ctx.cls("_parser._ParseTreeProcessor")
@@ -403,65 +379,36 @@ def rule_r4_regulated(ctx: Ctx) -> None:
         ctx.check(not bad, fn.short, norm(expr), "regulated %s-ID range must match the Specification for standard and vendor namespaces" % kind, fn.where(), bad[:6])
     ctx.sample({"rule": "C05.R4", "fn": "is_valid_regulated_subject_id", "boundaries": "6143..6144, 7167..7168, 8191..8192 x {uavcan, cyphal, vendor}"})
 
-    # application in finalize
+    # application in finalize: the builder is driven through its public interface and finalized (builder_common); the two range
+    # predicates are oracles whose answers are chosen here
+    from . import builder_common as B
+
     fin = ctx.func("_data_type_builder.DataTypeBuilder.finalize")
-    paths = paths_of(fin.node, opaque=["out"])
-    svc_name = "ServiceType"
-
-    def atomize(e: Any) -> Any:
-        if isinstance(e, tuple):
-            return A("M:" + str(e[0]))
-        s = norm(e)
-        if s == "len(self._structs) == 1":
-            return A("ONE_SCHEMA")
-        if s == "self._allow_unregulated_fixed_port_id":
-            return A("ALLOW")
-        if s in ("out.fixed_port_id is not None", "out.has_fixed_port_id"):
-            return A("HAS_PID")
-        if s == "out.fixed_port_id is None":
-            return f_not(A("HAS_PID"))
-        if isinstance(e, ast.Call):
-            f = e.func
-            args = [norm(a) for a in e.args]
-            if args == ["out.fixed_port_id", "out.root_namespace"]:
-                if isinstance(f, ast.IfExp) and norm(f.test).replace("_serializable.", "") == "isinstance(out, %s)" % svc_name:
-                    b = repo.resolve_expr(fin.module, f.body, None)
-                    o = repo.resolve_expr(fin.module, f.orelse, None)
-                    if getattr(b, "name", None) == "is_valid_regulated_service_id" and getattr(o, "name", None) == "is_valid_regulated_subject_id":
-                        return A("VALID_FOR_KIND")
-                    return A("VALID_WRONG_KIND")
-                r = repo.resolve_expr(fin.module, f, None)
-                if isinstance(r, FuncInfo):
-                    return A("VALID_WRONG_KIND")
-        raise AnalysisError("finalize: condition outside the abstraction: %s" % s)
-
-    atoms = ["ONE_SCHEMA", "ALLOW", "HAS_PID", "VALID_FOR_KIND"]
     bad = []
-    target_raise = []
-    for p in paths:
-        if p.kind == "raise":
-            k = exc_class_of(repo, fin.module, fin.cls, p.value)
-            target_raise.append((p, k))
-    forms = [(p, path_formula(p, atomize)) for p in paths]
-    for val in valuations(atoms):
-        v = dict(val)
-        v.update({"M:for": False, "M:except": False, "VALID_WRONG_KIND": False})
-        taken = [p for p, f in forms if f_eval(f, v)]
-        ctx.count()
-        if len(taken) != 1:
-            raise AnalysisError("finalize: %d feasible paths for %s" % (len(taken), val))
-        rejected = taken[0].kind == "raise"
-        want = (not val["ALLOW"]) and val["HAS_PID"] and not val["VALID_FOR_KIND"]
-        if rejected != want:
-            bad.append({"valuation": val, "found": "reject" if rejected else "accept"})
-    if any("VALID_WRONG_KIND" in str(f) for _, f in forms):
-        bad.append("regulated-range function is not selected by the type's kind (service vs. message)")
+    for service in (False, True):
+        script = [("on_directive", (1, "sealed", None))] + ([("on_service_response_marker", ()), ("on_directive", (3, "sealed", None))] if service else [])
+        for allow in (False, True):
+            for pid in (None, 0, 321):
+                for valid_subject in (False, True):
+                    for valid_service in (False, True):
+                        r = B.run_builder(ctx, script, B.definition_sym(fixed_port_id=pid), allow_unregulated=allow, valid_subject=valid_subject, valid_service=valid_service)
+                        ctx.count()
+                        valid = valid_service if service else valid_subject
+                        want = (not allow) and pid is not None and not valid
+                        got = r.raised
+                        if (got is not None) != want or (got is not None and got != "UnregulatedFixedPortIDError"):
+                            bad.append({"service": service, "allow_unregulated": allow, "port_id": pid, "valid in the %s range" % ("service" if service else "subject"): valid, "found": got or "accepted", "expected": "UnregulatedFixedPortIDError" if want else "accepted"})
+                            continue
+                        # the predicate consulted is the one of the type's kind, asked about this port-ID and the root namespace
+                        if want or ((not allow) and pid is not None):
+                            wantf = "is_valid_regulated_service_id" if service else "is_valid_regulated_subject_id"
+                            if [c for c in r.validity_calls] != [(wantf, (pid, "ns"))]:
+                                bad.append({"service": service, "port_id": pid, "predicates consulted": r.validity_calls, "expected": [(wantf, (pid, "ns"))]})
     ctx.check(not bad, fin.short, "regulated port-ID application", "reject iff not allow_unregulated and has port-ID and not in the regulated range of its kind", fin.where(), bad[:4])
-    nonide = [unparse(p.value) for p, k in target_raise if not (isinstance(k, ClassInfo) and repo.is_subclass(k, IDE))]
-    ctx.check(not nonide, fin.short, "rejection class", "rejections must be InvalidDefinitionError subclasses", fin.where(), nonide)
-    # `out` is the object whose port id is checked: it is what is returned
-    rets = [p for p in paths if p.kind == "return"]
-    ctx.check(all(norm(p.value) == "out" or isinstance(p.value, ast.Call) for p in rets) and bool(rets), fin.short, "returns the checked object", "finalize returns the composite it validated", fin.where(), nontrivial=False)
+    ctx.check(_ide_name(ctx, "UnregulatedFixedPortIDError"), fin.short, "rejection class", "rejections must be InvalidDefinitionError subclasses", fin.where())
+    # what finalize returns is the composite it validated
+    r = B.run_builder(ctx, [("on_directive", (1, "sealed", None))], B.definition_sym(fixed_port_id=None), allow_unregulated=True)
+    ctx.check(r.raised is None and getattr(r.result, "_kind_", None) == "StructureType" and r.result.full_name == "ns.sub.T", fin.short, "returns the checked object", "finalize returns the composite it validated", fin.where(), nontrivial=False)
 
 
 def run(ctx: Ctx) -> None:
